@@ -207,6 +207,25 @@ trait DataPointBuilder {
                 Ok(())
             }
 
+            fn u128(&mut self, value: u128) -> sval::Result {
+                // Data points are either 64bit signed integers or doubles
+                match i64::try_from(value) {
+                    Ok(value) => self.aggregator.push_point_i64(value),
+                    Err(_) => self.aggregator.push_point_f64(value as f64),
+                }
+
+                Ok(())
+            }
+
+            fn i128(&mut self, value: i128) -> sval::Result {
+                match i64::try_from(value) {
+                    Ok(value) => self.aggregator.push_point_i64(value),
+                    Err(_) => self.aggregator.push_point_f64(value as f64),
+                }
+
+                Ok(())
+            }
+
             fn seq_begin(&mut self, _: Option<usize>) -> sval::Result {
                 if self.in_seq {
                     return sval::error();
